@@ -207,4 +207,6 @@ def run(ck, tier):
               detail='nested-blocking %s' % sorted(set(bad)), loc=cx.floc(ex),
               message='while holding the transaction lock the code does %s' % sorted(set(bad)))
     ck.assume('GIL-level atomicity of single statements is assumed; actual interleavings are not explored')
+    from .. import ownership as _own
+    ck.guard(_own.rule_instance_owned, ck, cx, 'R5', _own.MANAGERS, "the transaction table / lock state would be shared between clients instead of being protected by the client's own lock", 3)
     return cx.idx
